@@ -165,10 +165,15 @@ func firstDiff(a, b []string) int {
 // differential runs all cases on both sides; returns per-case go outputs and indices of disagreeing cases.
 func differential(mode string, mk func() Impl, cases []Case) (goOuts [][]string, leanOuts [][]string, bad []int, err error) {
 	goOuts = make([][]string, len(cases))
+	t0 := time.Now()
 	for i, c := range cases {
 		goOuts[i] = runGo(mk, c)
 	}
+	t1 := time.Now()
 	leanOuts, err = runLean(mode, cases)
+	if os.Getenv("VERIF_DEBUG") != "" {
+		fmt.Fprintf(os.Stderr, "DEBUG go %v lean %v\n", t1.Sub(t0), time.Since(t1))
+	}
 	if err != nil {
 		return
 	}
